@@ -2,3 +2,9 @@ pub mod error;
 pub mod from_csv;
 pub mod to_csv;
 mod utils;
+
+/// Verification hook: the importer's Boolean cell reader.
+#[cfg(feature = "verif")]
+pub fn verif_string_to_bool(input: &str) -> Option<bool> {
+    utils::string_to_bool(input)
+}
